@@ -19,22 +19,26 @@ chk("C11", "model_checking",
 EXPL = ("hand-written explicit-state explorer (BFS, canonical-form de-duplication) whose transitions call the real scheduling "
         "primitives; oracle evaluated on every transition")
 chk("C01", "model_checking", EXPL + ": reference-interpreter equivalence on the whole control domain with symbolic data",
-    "Breadth-first exploration from 49 seed procedures over the complete finite menu of (primitive, cursor/argument) events "
-    "(all 57 exported primitives + 20 stdlib compositions; quick depth 1 = 16k transitions, thorough depth 2 with caps reported). "
+    "Bounded breadth-first exploration in phases (reported separately in the evidence): (A) 61 curated seed procedures x the complete finite menu of "
+    "(primitive, cursor/argument) events (all 57 exported primitives + 25 stdlib compositions), depth 1 (quick) / depth 2 with a reported state cap (thorough); "
+    "(B) a generated dependence family (13 x 13 ordered statement pairs under one loop) and (B2) a generated loop-nest family (3 outer x 6 inner bound shapes x 6 bodies) "
+    "under the dependence-guarded primitives (complete menu in the thorough tier); (C) depth 2 from two small seeds (structure-creating first step, complete menu as second step). "
+    "Quick = about 100k transitions. "
     "For every transition that returns a procedure, source and result are executed by an independent LoopIR interpreter on every control "
     "valuation (sizes, index/bool args, window layouts, control-typed config state) with every data cell a distinct indeterminate, so equality of "
     "the polynomial normal forms is equality for ALL buffer contents up to real algebra; configuration fields are exempted only if the system reports them.",
     "trusts the reference interpreter (cross-validated against generated C in C02) and the polynomial normal form; small-scope: seeds, menus and sizes are bounded",
     "DESIGN.md §3 C01")
 chk("C04", "model_checking", EXPL + ": structural validator + interpreter safety monitors + compile outcome",
-    "Same exploration as C01; every returned procedure is checked by an independent scope/arity/type validator, executed with safety monitors "
+    "Same exploration plan as C01 (generated families restricted to the dependence-guarded primitives); every returned procedure is checked by an independent scope/arity/type validator, executed with safety monitors "
     "(out-of-bounds on views, callee assertions/sizes/shapes, aliasing, negative loops, uninitialised values reaching outputs) on the whole control domain, "
     "and compiled: anything but success or a documented backend rejection is a violation.",
     "trusts validator and interpreter; T.Window type annotations are not part of the property and are not checked", "DESIGN.md §3 C04")
-chk("C06", "model_checking", EXPL + ": node-identity forwarding oracle on every statement/gap cursor, edge and chain level",
-    "For every transition p->q (including unsafe-flagged operations) every statement cursor and gap of p, and of every ancestor on the path from the seed, "
+chk("C06", "model_checking", EXPL + ": node-identity forwarding oracle on every statement / gap / block cursor, edge and chain level",
+    "For every transition p->q (including unsafe-flagged operations; curated seeds depth 1 + depth 2 from two small seeds in quick, depth 2 with state cap in thorough) every statement cursor, every gap and every block "
+    "(all contiguous ranges of statement lists of <= 6 statements) of p, and of every ancestor on the path from the seed, "
     "is forwarded to q; the result must be InvalidCursorError or resolve (fresh path walk) to the identical carried node object, never to a different carried statement, "
-    "never dangling; implicit forwarding (passing the old cursor to an operation on q) must agree with explicit forwarding.",
+    "never dangling; a gap whose two neighbours are carried over and still adjacent must forward exactly between them, a block whose statements are carried over as one contiguous run must forward to exactly that run; implicit forwarding (passing the old cursor to an operation on q) must agree with explicit forwarding.",
     "identity-based oracle relies on rewrites sharing untouched node objects (true by construction of the cursor layer); rebuilt statements are only checked for non-dangling/ancestor-of-carried-descendants",
     "DESIGN.md §3 C06")
 chk("C07", "model_checking", EXPL + ": deep fingerprints (content, Sym ids, node identities) of all live procedures before/after every event, successful or failing",
@@ -50,7 +54,7 @@ chk("C08", "exploration", GEN + ": sanitizer-instrumented execution of the gener
     "Same programs and driver as C02, built with AddressSanitizer and UBSan (no recovery) and -Werror=discarded-qualifiers; malloc/free in the generated unit are remapped to counting wrappers so every call must release exactly what it allocated; valuations on which the LoopIR itself is unsafe are attributed to C03 and skipped.",
     "sanitizers and gcc are trusted; MDRAM's custom allocator needs host-side init and is excluded", "DESIGN.md §3 C08")
 chk("C10", "model_checking", EXPL + ": C01 equivalence oracle where exactly the configuration fields the system reports are exempt; call_eqv over derived/unrelated callees",
-    "Exploration to depth 2 (quick) / 3 (thorough) from the configuration seeds restricted to the configuration-affecting operations and their neighbours, over all initial control-typed configuration states (real-valued fields symbolic); buffers must agree exactly and every differing field must be in the set the system reports; call_eqv is driven over callees derived with different mod-sets and an unrelated look-alike that must be refused.",
+    "A generated configuration-dataflow family (all 9^3 sequences over writes at top level / in loops running 0, 1 or n times / under a guard / through a callee and reads at top level / in a loop) under 11 configuration-relevant operations at depth 1, plus exploration to depth 2 (quick) / 3 (thorough) from the configuration seeds restricted to the configuration-affecting operations and their neighbours, over all initial control-typed configuration states (real-valued fields symbolic); buffers must agree exactly and every differing field must be in the set the system reports; call_eqv is driven over callees derived with different mod-sets and an unrelated look-alike that must be refused.",
     "state cap per level reported as cap_hit when reached", "DESIGN.md §3 C10")
 chk("C12", "exploration", GEN + ": probe procedures through the real front end and simplify, interpreter equivalence with per-iteration symbolic weights",
     "All quasi-affine expressions up to a node bound over the variables of 10 contexts (constant/symbolic/non-zero-lower-bound loops, two loops, index argument, guards, modulo assertion, shadowed and guard-then-shadowed iterators) are embedded as index, condition (3 forms), loop bound and (thorough) window bound / allocation extent; simplify(p) must equal p on every admitted valuation, pointwise per iteration.",
@@ -59,7 +63,7 @@ chk("C13", "exploration", GEN + ": brute-force integer evaluation of every valua
     "All index expressions up to 5 (quick) / 6 (thorough) nodes over two variables x all environments per variable (finite, half-open, unknown, absent) for index_range_analysis/constant_bound; IndexRange join on all pairs of a base x bound pool; assertion-derived argument ranges and check_expr_bound answers on real procedures; infer_range through the user API.",
     "unbounded sides truncated 6 beyond the finite end", "DESIGN.md §3 C13")
 chk("C16", "exploration", GEN + ": independent matcher (declarative predicates over the IR in textual order) and navigation laws on every cursor",
-    "For every seed procedure and its unroll/cut/divide successors (duplicated names) the patterns derived from its own statements and expressions (exact text, holes, two-statement sequences, name shorthands) x #k for k=0..count are run through find_all/find/find_loop/find_alloc_or_arg/cursor-scoped find and compared by node path and order with an independent matcher; 17 navigation laws are checked at every statement cursor.",
+    "For every seed procedure and its unroll/cut/divide/shift successors (duplicated names, expressions in loop lower bounds) the patterns derived from its own statements and expressions (exact text, holes, two-statement sequences, name shorthands) x #k for k=0..count are run through find_all/find/find_loop/find_alloc_or_arg/cursor-scoped find and compared by node path and order with an independent matcher; 17 navigation laws are checked at every statement cursor.",
     "restricted to the documented pattern fragment; extern-call expression patterns and mid-sequence statement holes are excluded", "DESIGN.md §3 C16")
 chk("C17", "model_checking", EXPL + ": print -> real @proc re-parse -> alpha-isomorphism, overlapping-scope name collision, re-print identity and interpreter equivalence on every distinct state",
     "Every distinct state reached by the explorer is printed and fed back through the real parser and type checker with memories/configs/callees bound by name (the front end's safety analyses are bypassed: they judge the program, not its text).",
@@ -69,22 +73,22 @@ chk("C19", "exploration", GEN + ": reference interpreter with the documented inp
     "sizes 1..3, index args -1..2", "DESIGN.md §3 C19")
 
 chk("C03", "exploration", GEN + ": every accepted program executed by the reference interpreter with all safety monitors on its whole control domain x 4 window layouts",
-    "Full products of the front-end families (access offset x loop bounds x guard x {direct, window, window of window, callee window/tensor parameter} x {write, read, reduce}; window extents/points x access; callee size expressions x assertions; shape, stride-assertion and aliasing variants; loop-bound pairs) plus the back-end families go through the real @proc; any out-of-bounds access (view or backing store), violated callee assertion, non-positive size argument, shape mismatch, aliased call arguments or negative loop range in an accepted program is a violation.",
+    "Full products of the front-end families (access offset x loop bounds x guard x {direct, window, window of window, callee window/tensor parameter} x {write, read, reduce}; window extents/points x access; chains of two windows (first-level offset 0/1/2 x second-level offset x extent x {window statement, call argument, read}, 2-D row blocks, symbolic offsets); callee size expressions x assertions; shape, stride-assertion and aliasing variants; loop-bound pairs) plus the back-end families go through the real @proc; any out-of-bounds access (view or backing store), violated callee assertion, non-positive size argument, shape mismatch, aliased call arguments or negative loop range in an accepted program is a violation.",
     "interpreter monitors are trusted; sizes up to 4 (quick) / 6 (thorough)", "DESIGN.md §3 C03")
 chk("C05", "model_checking", EXPL + ": equivalence with the callee executed from its body, call-site monitors, inline-back equivalence",
-    "Exploration (depth 2 / 3) from the seven call seeds (kernels with transposed / strided / offset / guarded / reduction access patterns x callees with window, size, index, bool and stride-assert parameters): replace on every block of length 1..3 with every candidate, replace_all, replace_all_stmts, inline, divide_loop, reorder_loops in between.",
+    "Exploration (depth 2 / 3) from the eight call seeds (kernels with transposed / strided / offset / guarded / reduction access patterns, and a guard family: five callees guarded by ==, <, <=, >, >= x eight kernels using each comparison, flipped operands and an offset x callees with window, size, index, bool and stride-assert parameters): replace on every block of length 1..3 with every candidate, replace_all, replace_all_stmts, inline, divide_loop, reorder_loops in between.",
     "state cap per level reported in the evidence", "DESIGN.md §3 C05")
 chk("C09", "exploration", GEN + ": per-iteration conflict sets and all iteration permutations in the reference interpreter for every procedure the back end compiles",
     "A 14-statement dependence alphabet (singles and pairs) under `par` at six positions (top, inside seq, inside if, inside par, seq inside par, inside a callee) and parallelize_loop on every loop of every seed; when compile_procs_to_strings succeeds no two iterations may conflict (write/reduce vs read/write/reduce, reduce/reduce included) on any input and every permutation of <= 3 iterations must give the sequential result.",
     "OpenMP itself is not executed; interleavings within an iteration are covered by the conflict-set oracle", "DESIGN.md §3 C09")
 chk("C14", "exploration", GEN + ": compiled wrapper (real back end + gcc) vs reference interpreter running the instruction's Exo body",
-    "All 60 @instr procedures of exo.platforms.x86 (59 executable on this host: AVX2, FMA, AVX-512F/BW/VL) get an automatically generated wrapper: DRAM operands as windows at offsets 0..2 of a larger buffer, register operands loaded from / stored to DRAM around the call, every size/mask/bound argument admitted by the assertions (1..16), two lane-distinct exact data patterns.",
+    "All 60 @instr procedures of exo.platforms.x86 (59 executable on this host: AVX2, FMA, AVX-512F/BW/VL) get an automatically generated wrapper: DRAM operands as windows at offsets 0..2 of a larger buffer, register operands loaded from / stored to DRAM around the call, every size/mask/bound argument admitted by the assertions (1..16), two lane-distinct exact data patterns; in addition every DRAM operand is passed once as a non-unit-stride window, which must either be refused by the instruction's own assertions or behave like the body.",
     "register load/store instructions are themselves among the instructions under test; values are small exact integers (integer precisions compare after truncation)", "DESIGN.md §3 C14")
 chk("C15", "exploration", GEN + ": literal consistency predicate over the annotation grid + gcc acceptance of emitted C",
-    "Skeletons {mixed expression, precision across a call via tensor/window/scalar parameter, memory across a call at depth 1-2 for arguments and allocations, window-ness, direct access to a register memory} x every assignment over 4 precisions / 4 memories / window-ness, written in source and reached via set_precision / set_memory / set_window: inconsistent => compile must raise; consistent => compile succeeds and gcc -Wall -Werror=incompatible-pointer-types accepts .c/.h; plus gcc acceptance of the C of every seed and family program.",
+    "Skeletons {mixed expression, the same through a window alias of the buffer, precision across a call via tensor/window/scalar/aliased-window parameter, memory across a call at depth 1-2 for arguments and allocations, window-ness, direct access to a register memory} x every assignment over 4 precisions / 4 memories / window-ness, written in source and reached via set_precision / set_memory / set_window: inconsistent => compile must raise; consistent => compile succeeds and gcc -Wall -Werror=incompatible-pointer-types accepts .c/.h; plus gcc acceptance of the C of every seed and family program.",
     "gcc is the reference for 'valid C'", "DESIGN.md §3 C15")
 chk("C18", "exploration", "fresh-interpreter executions of scripted sessions over a grid of hash seeds, symbol-counter offsets, prior histories, definition orders and salted Sym/proc hashing; byte comparison",
-    "8 sessions (several window structs/configs/externs/memories, tiling+staging schedule, unroll_buffer+replace_all+extract_subproc, many free variables, x86 instructions, two procedures sharing callees, blur schedule with specialize) x 21 variants (each axis exhaustively around the default + pairwise corners; thorough: full 384-variant product): printed procedures, C and header must be byte-identical.",
+    "9 sessions (several window structs/configs/externs at two precisions/memories, both static C helpers, tiling+staging schedule, unroll_buffer+replace_all+extract_subproc, many free variables, x86 instructions, two procedures sharing callees, blur schedule with specialize) x 21 variants (each axis exhaustively around the default + pairwise corners; thorough: full 384-variant product): printed procedures, C and header must be byte-identical.",
     "the hash-seed axis is a finite sample; salted hashing owns the iteration order of Sym/proc keyed sets", "DESIGN.md §3 C18")
 
 ALL = [f"C{i:02d}" for i in range(1, 20)]
